@@ -37,6 +37,23 @@ fn main() {
 
 fn real_main(args: Vec<String>) -> i32 {
     match args[1].as_str() {
+        "sizes" => {
+            // print the sizes of the term families (diagnostic)
+            for quick in [true, false] {
+                for (name, fam, depth) in props::c01::families(quick) {
+                    let t = std::time::Instant::now();
+                    let mut g = gen::TermGen::new(fam.clone());
+                    let mut n = 0usize;
+                    for ty in fam.universe.clone() {
+                        let k = g.terms(&ty, depth).len();
+                        n += k;
+                        println!("  {name} {} : {k}", ty.render());
+                    }
+                    println!("{name} (quick={quick}): {n} terms, {:.1}s", t.elapsed().as_secs_f64());
+                }
+            }
+            0
+        }
         "dump-jets" => {
             props::c13::dump_jets();
             0
